@@ -806,14 +806,20 @@ def gen_c09(rng, tier):
                 c.tags["cost"] = n * 40
                 out.append(c)
                 k += 1
-    for kind in ["qwt256pfs", "hqwt512pfs"]:
-        c = Case("c09-empty-%s" % kind, tags=dict(kind=kind, n=0, trivial=True))
-        c.add("NEW %s u16 new 0" % kind)
-        if kind.startswith("hq"):
-            c.add("Q codes")
-        c.add("Q rankp 0 0")
-        c.add("Q rankp 3 1")
-        out.append(c)
+    # empty trees by every route (new / from / collect of nothing, Default::default()), every alias with and without
+    # prefetch support: rank_prefetch answers as rank does (None everywhere), unchecked queries are not asked
+    for kind in QWT_KINDS + HQ_KINDS:
+        for path in ["new", "from", "collect", "default"]:
+            c = Case("c09-empty-%s-%s" % (kind, path), tags=dict(kind=kind, n=0, trivial=True, path=path))
+            c.add("NEW %s u16 %s 0" % (kind, path))
+            if kind.startswith("hq"):
+                c.add("Q codes")
+            for sym, i in [(0, 0), (3, 1), (0, 1), (65535, 0), (1, MAXU)]:
+                c.add("Q rankp %d %d" % (sym, i))
+                c.add("Q rank %d %d" % (sym, i))
+            c.add(rng.choice(["RT", "CLONE"]))
+            c.add("Q rankp 0 0"); c.add("Q rank 0 0")
+            out.append(c)
     return out
 
 
